@@ -518,3 +518,6 @@ V("c12-reset-keeps-finish-time", "C12", "rich/progress.py", "        self._progr
 V("c10-stderr-proxy-wraps-stdout", "C10", "rich/progress.py", "                sys.stderr = FileProxy(self.console, sys.stderr)\n", "                sys.stderr = FileProxy(self.console, sys.stdout)\n", "R10.15")
 V("c10-print-width-unclamped", "C10", "rich/console.py", "                width=min(width, self.width) if width else None,\n", "                width=width if width else None,\n", "R10.16")
 V("c04-tag-cache-by-name", "C04", "rich/markup.py", [("    _Tag = Tag\n\n    def pop_style", "    _Tag = Tag\n    tag_cache = {}\n\n    def pop_style"), ("                normalized_tag = _Tag(normalize(tag.name), tag.parameters)\n", "                normalized_tag = tag_cache.get(tag.name)\n                if normalized_tag is None:\n                    normalized_tag = _Tag(normalize(tag.name), tag.parameters)\n                    tag_cache[tag.name] = normalized_tag\n")], None, "R4.12")
+PG = "rich/progress.py"
+V("c12-start-task-unlocked", "C12", PG, "        with self._lock:\n            task = self._tasks[task_id]\n            if task.start_time is None:\n                task.start_time = self.get_time()\n\n    def stop_task", "        if True:\n            task = self._tasks[task_id]\n            if task.start_time is None:\n                task.start_time = self.get_time()\n\n    def stop_task", "R12.1")
+V("c12-tasks-property-unlocked", "C12", PG, "        with self._lock:\n            return list(self._tasks.values())\n", "        if True:\n            return list(self._tasks.values())\n", "R12.1")
